@@ -229,6 +229,11 @@ func (rp *Republisher) run(ctx context.Context, timeoutShort, timeoutLong time.D
 			immediatePublish = rp.immediatePublish
 		}
 
+		// Nothing is left to publish or to retry (a failed publish may have
+		// been superseded by a value that is already published): make sure
+		// waiters are accepted again.
+		immediatePublish = rp.immediatePublish
+
 		// 3. Notify anything waiting in `WaitPub` on successful call to
 		// pubfunc or if nothing to publish.
 		if waiter != nil {
